@@ -44,14 +44,16 @@ func execRun(bin string, s *spec.RunSpec, wallLimit time.Duration) *spec.RunResu
 	ctx, cancel := context.WithTimeout(context.Background(), wallLimit)
 	defer cancel()
 	cmd := exec.CommandContext(ctx, bin, "-test.run", "^TestRun$", "-test.timeout", "0")
-	gogc := "GOGC=off" // the collector's timing must not perturb the schedule
-	if strings.Contains(filepath.Base(bin), ".race.") {
-		gogc = "GOGC=100" // race-detector runs are not compared for determinism; shadow memory is large
-	}
+	// The collector's timing must not perturb the schedule: it stays off. Race-detector runs
+	// of heavy specs would otherwise grow without bound, so there a memory limit lets the
+	// collector step in only when 3 GiB are reached (rare; such a run may then not replay).
 	cmd.Env = append(os.Environ(),
 		"VSIM_SPEC="+sp, "VSIM_OUT="+op,
-		"GOMAXPROCS=1", gogc, "GODEBUG=asyncpreemptoff=1,randseednop=0",
+		"GOMAXPROCS=1", "GOGC=off", "GODEBUG=asyncpreemptoff=1,randseednop=0",
 		"GOTRACEBACK=all")
+	if strings.Contains(filepath.Base(bin), ".race.") {
+		cmd.Env = append(cmd.Env, "GOMEMLIMIT=3GiB")
+	}
 	cmd.SysProcAttr = &syscall.SysProcAttr{Setpgid: true, Pdeathsig: syscall.SIGKILL} // no orphans if the driver is killed
 	var stderr bytes.Buffer
 	cmd.Stderr = &stderr
